@@ -59,6 +59,7 @@ type Obligation struct {
 	Result         *SolverResult
 	SMTFile        string
 	CandidateModel bool
+	Decided        bool
 	Replayed       bool
 }
 
@@ -191,6 +192,10 @@ func (c *Ctx) oblige(kind, name, label string, props []string, goal string, pos 
 	}
 	if goal == "true" || c.curReach == "false" {
 		o.Trivial = true
+	}
+	if goal == "false" && c.curReach == "true" && kind != "cover" {
+		o.Result = &SolverResult{Status: "sat", Solver: "syntactic", Output: "goal is literally false on an unconditionally reachable path"}
+		o.Decided = true
 	}
 	c.obls = append(c.obls, o)
 	// known finding with an 'except' predicate: the obligation is re-proved outside the known input class
